@@ -77,6 +77,7 @@ def checkPoW (p : ChainParams) (hash : Bytes) (nBits : Nat) : Res Unit :=
   match Model.checkPoW p.powLimit hash nBits with
   | .ok => .ok ()
   | .errPow => reject
+  | .pyStructError => .error structError   -- hash shorter than 32 bytes: dead for a header digest
 
 /-- `CheckBlockHeader(block_header, fCheckPoW, cur_time)` with `cur_time` given -/
 def checkBlockHeader (p : ChainParams) (h : Header) (fPoW : Bool) (curTime : Int) : Res Unit :=
